@@ -2,7 +2,7 @@
 window / filter.  coap_print_wellknown() and coap_print_link() on exact-size
 heap buffers for every (offset, buflen); the full listing is compared with the
 RFC 6690 reference as a set of links."""
-from .. import build, common
+from .. import build, common, world
 from ..refs import linkformat as LF
 
 NAMES = [b"rt", b"if", b"rel", b"ct", b"sz", b"title", b"x"]
@@ -177,6 +177,100 @@ def work(job):
     return len(cases), cov, vios, crash_out, windows, judged_sets, sample
 
 
+def get_work(job):
+    """the body a client obtains by GET /.well-known/core (plain and Block2, with and without
+    a filter) is the listing of exactly the selected resources"""
+    idx, n, exe = job
+    run = common.Run("C20", "quick", "exploration")
+    stats = dict(gets=0, blockwise_gets=0, get_judged=0)
+    cov = set()
+    for k in range(n):
+        r = common.rng("c20-get-%d-%d" % (idx, k))
+        table = [x for x in gen_table(r) if x.path]        # the root resource has no URI here
+        w = world.World(exe, seed=r.getrandbits(30))
+        sim = world.Sim(w, latency=1)
+        witness = {"table": [(x.path.decode("latin1"), [(a.decode("latin1"), None if v is None
+                                                         else v.decode("latin1"))
+                                                        for a, v in x.attrs], x.observable,
+                              x.osc) for x in table], "script": w.script}
+        try:
+            mtu = r.choice([0, 0, 80, 96, 128, 200])      # 64 cannot hold a 16-byte block
+            sim.cmd("fullpayload 1")
+            sim.add_node(0, block_mode=3)
+            sim.add_node(1, block_mode=r.choice([1, 3]))
+            if mtu:
+                sim.cmd("ctx 1 srv_mtu=%d" % mtu)
+            sim.cmd("ep 1 udp 10.0.0.2:5683")
+            for x in table:
+                line = "res 1 %s body=fixed:78" % x.path.hex()
+                if x.observable:
+                    line += " obs=1"
+                if x.osc:
+                    line += " flags=%d" % 0x400
+                if x.attrs:
+                    line += " attr=" + ",".join(a.hex() + ("" if v is None else ":" + v.hex())
+                                                for a, v in x.attrs)
+                sim.cmd(line)
+            sim.cmd("sess 0 0 udp 10.0.0.2:5683%s" % (" mtu=%d" % mtu if mtu else ""))
+            filters = [None] + [gen_filter(r, table) for _ in range(3)]
+            for j, f in enumerate(filters):
+                if f is not None and (b"=" not in f or f.endswith(b"=") or b"&" in f or not f):
+                    continue
+                tok = bytes([0xB0 + j])
+                opts = "11=%s,11=%s" % (b".well-known".hex(), b"core".hex())
+                if f is not None:
+                    opts += ",15=%s" % f.hex()
+                mark = len(sim.log)
+                sim.cmd("send 0 0 type=0 code=1 token=%s opts=%s" % (tok.hex(), opts))
+                sim.run(until=sim.elapsed() + 5000, quiesce=False)
+                rsp = [e for e in sim.log[mark:] if e["e"] == "rsp" and e.get("n") == 0
+                       and e["tok"] == tok.hex()]
+                nblocks = sum(1 for e in sim.log[mark:] if e["e"] == "wire" and
+                              e["from"].startswith("10.0.0.2"))
+                stats["gets"] += 1
+                if nblocks > 1:
+                    stats["blockwise_gets"] += 1
+                sel = [LF.selects(f, x) for x in table]
+                if None in sel:
+                    continue
+                expect = [x for x, s_ in zip(table, sel) if s_]
+                fk = "none" if f is None else f.split(b"=")[0].decode("latin1")
+                cov.add((fk, len(table), nblocks > 1, mtu))
+                if not rsp:
+                    run.violation("get/no-response/%s" % fk, dict(witness, filter=repr(f)),
+                                  "GET /.well-known/core%s got no response" %
+                                  ("?" + f.decode("latin1") if f else ""))
+                    continue
+                e = rsp[-1]
+                stats["get_judged"] += 1
+                if not expect and e["code"] in (0x84, 0x45) and not e.get("phex"):
+                    continue             # nothing selected: 4.04 or an empty 2.05 are both fine
+                body = bytes.fromhex(e.get("phex") or "")
+                if e["code"] != 0x45:
+                    run.violation("get/wrong-code/%s" % fk, dict(witness, filter=repr(f)),
+                                  "GET /.well-known/core answered %d.%02d, %d links expected" %
+                                  (e["code"] >> 5, e["code"] & 31, len(expect)))
+                    continue
+                ok, why = LF.match_listing(body, expect)
+                if not ok:
+                    run.violation("get/listing-differs/%s/%s" % (
+                        fk, "blockwise" if nblocks > 1 else "single"),
+                        dict(witness, filter=repr(f), body=body.decode("latin1")),
+                        "filter %r, %d datagrams\nexpected links (any order): %r\nbody: %r" %
+                        (f, nblocks, [next(x.link_variants()) for x in expect], body))
+            evs, rc, err = w.close()
+            if rc not in (0, None):
+                sg = common.sanitizer_signature(err) or "exit-rc%s" % rc
+                run.violation("get/teardown/%s" % sg, dict(witness, stderr=err[-3000:]),
+                              err[-1500:])
+        except world.WorldCrash as e:
+            world.crash_violation(run, "get", e, witness)
+        finally:
+            if not w.closed:
+                w.close(kill=True)
+    return stats, cov, run.export()
+
+
 def main(tier):
     run = common.Run("C20", tier, "exploration")
     run.rule = ("resource tables of 0..12 resources (paths of 0..3 segments, attributes with "
@@ -185,6 +279,8 @@ def main(tier):
                 "rel token, other attribute, unknown attribute); for every table/filter pair "
                 "every (offset, buflen) window up to listing length + 2 on exact-size heap "
                 "buffers (larger listings: the diagonal family of buffer sizes); "
+                "the same tables served by a server node and fetched by a client node with GET "
+                "/.well-known/core[?filter], path MTU 64..200 (Block2) or default; "
                 "distinct_nontrivial = distinct (filter kind, table size, listing-length "
                 "bucket, window mode)")
     run.assumptions = ["vf/refs/linkformat.py; attribute order inside a link and resource order "
@@ -208,6 +304,19 @@ def main(tier):
             run.violation("sanitizer/" + sig, wit, wit.get("stderr", "")[-1200:])
         if sample:
             run.sample(sample)
+    # the listing as a client sees it: GET (plain and Block2) through two nodes
+    wexe = build.ensure_world("asan")
+    gjobs = [(i, 12 if tier == "quick" else 40, wexe) for i in range(16 if tier == "quick" else 64)]
+    gtot = {}
+    for st, cov, vios in common.parallel_map(get_work, gjobs):
+        for k, v in st.items():
+            gtot[k] = gtot.get(k, 0) + v
+        run.nontrivial |= cov
+        run.merge(vios)
+    run.evaluations += gtot.get("gets", 0)
+    run.extra.update(gtot)
+    run.require("get_judged", gtot.get("get_judged", 0), 100)
+    run.require("blockwise_gets", gtot.get("blockwise_gets", 0), 40)
     run.extra["windows_checked"] = windows
     run.extra["listings_judged_against_reference"] = judged
     run.exhaustive = False
